@@ -18,15 +18,29 @@ structure SReg where
   mol : String
   track : Bool
   src : List (Nat × Nat)
+  /-- outside the property's parameter space: a vector-type sketch carrying BOTH num and scaled whose
+  num bound has cut.  `KmerMinHash::add_hash_with_abundance` enforces `num` only in its insert-in-the-
+  middle branch (a hash above the current largest and under the ceiling is pushed without the check),
+  so what such a sketch holds depends on the insertion order (DESIGN App. A); the spec column is silent
+  for it and for everything derived from it, the model column still follows the code. -/
+  out : Bool := false
 
 def SReg.content (r : SReg) : List (Nat × Nat) := sketchPairs r.num r.maxHash r.src
 def SReg.keys (r : SReg) : List Nat := r.content.map Prod.fst
+/-- more distinct hashes under the ceiling than `num` admits, on a sketch with both bounds -/
+def SReg.cutNow (r : SReg) : Bool :=
+  r.num != 0 && r.maxHash != 0 &&
+    (sortU ((r.src.map Prod.fst).filter (within r.maxHash))).length > r.num
+def SReg.mark (k : Kind) (r : SReg) : SReg :=
+  if k == .vec && r.cutNow then { r with out := true } else r
 
 structure St where
   kind : Kind := .vec
   nospec : Bool := false
   regs : List (Nat × Sk) := []
   sregs : List (Nat × SReg) := []
+  /-- registers mirroring the sketches of the `fpnew` signature, in template order -/
+  sigRegs : List Nat := []
 
 def getR {α : Type} (l : List (Nat × α)) (i : Nat) : Option α := (l.find? (·.1 == i)).map (·.2)
 def setR {α : Type} (l : List (Nat × α)) (i : Nat) (v : α) : List (Nat × α) :=
@@ -50,13 +64,22 @@ def showErr : Err → String
   | .NeedsAbundanceTracking => "err NeedsAbundanceTracking"
   | .CannotUpsampleScaled => "err CannotUpsampleScaled"
 
-def showObs (mh : Nat) (mins : List Nat) (ab : Option (List Nat)) : String :=
-  "mh=" ++ toString mh ++ " mins=" ++ showNats mins ++ " abunds=" ++ (match ab with | some l => showNats l | none => "none")
+def showObs (num mh : Nat) (mins : List Nat) (ab : Option (List Nat)) : String :=
+  "num=" ++ toString num ++ " mh=" ++ toString mh ++ " mins=" ++ showNats mins ++ " abunds=" ++
+    (match ab with | some l => showNats l | none => "none")
 
-def SetOps.Sk.obs (s : Sk) : String := showObs s.maxHash s.mins s.abunds
+def molName : Mol → String
+  | .dna => "dna" | .protein => "protein" | .dayhoff => "dayhoff" | .hp => "hp"
+
+def SetOps.Sk.obs (s : Sk) : String := showObs s.num s.maxHash s.mins s.abunds
 def SReg.obs (r : SReg) : String :=
   let c := r.content
-  showObs r.maxHash (c.map Prod.fst) (if r.track then some (c.map Prod.snd) else none)
+  showObs r.num r.maxHash (c.map Prod.fst) (if r.track then some (c.map Prod.snd) else none)
+/-- every parameter a sketch carries, then its content -/
+def showParams (k : Nat) (mol : String) (seed : Nat) : String :=
+  "k=" ++ toString k ++ " mol=" ++ mol ++ " seed=" ++ toString seed ++ " "
+def SetOps.Sk.obsp (s : Sk) : String := showParams s.ksize (molName s.mol) s.seed ++ s.obs
+def SReg.obsp (r : SReg) : String := showParams r.ksize r.mol r.seed ++ r.obs
 
 /-- the property's reading of `check_compatible` -/
 def specCompat (a b : SReg) : Option String :=
@@ -93,6 +116,14 @@ def specBoth (sa sb : SReg) : Except String (SReg × SReg) :=
   | .error e, _ => .error e
   | _, .error e => .error e
 
+/-- `intersection` / `intersection_size` (hence `jaccard` and the gather statistics) of sketches that
+carry a `num` bound are computed inside the bottom-`num` of the union; when that bound cuts the union
+they are no longer the plain set quantities and the property (scaled sketches; num sketches only
+"pass through") says nothing. -/
+def numCuts (a b : SReg) : Bool :=
+  let u := unionSize a.keys b.keys
+  (a.num != 0 && u > a.num) || (b.num != 0 && u > b.num)
+
 def specCount (a b : SReg) : String :=
   match specCompat a b with
   | some e => e
@@ -101,13 +132,16 @@ def specCount (a b : SReg) : String :=
 def specIsz (a b : SReg) : String :=
   match specCompat a b with
   | some e => e
-  | none => "common=" ++ toString (inter a.keys b.keys).length ++ " union=" ++ toString (unionSize a.keys b.keys)
+  | none =>
+    if numCuts a b then "-" else
+    "common=" ++ toString (inter a.keys b.keys).length ++ " union=" ++ toString (unionSize a.keys b.keys)
 
 def specSim (a b : SReg) (ig : Bool) : String :=
   match specCompat a b with
   | some e => e
   | none =>
     if ig || !a.track || !b.track then
+      if numCuts a b then "-" else
       showF (SimParts.jaccard (inter a.keys b.keys).length (unionSize a.keys b.keys)).toFloat
     else
       let ca := a.content
@@ -145,6 +179,7 @@ def specG (q m : SReg) : String :=
     match specCompat m' q with
     | some _ => "-"          -- the code panics here (`expect`); outside the property
     | none =>
+      if numCuts m' q then "-" else
       let mk := m'.keys
       let qk := q.keys
       let io := (inter mk qk).length
@@ -162,7 +197,8 @@ def binop (st : St) (op : String) (r1 r2 : Nat) (args : List String) : St × Res
       match specCompat sa sb with
       | some e => (st', resp st m e)
       | none =>
-        let sa' := { sa with src := sa.src ++ sb.src, track := sa.track && sb.track }
+        -- what `b` holds is its content (its own `num` bound may have cut its insertions)
+        let sa' := SReg.mark st.kind { sa with src := sa.src ++ sb.content, track := sa.track && sb.track, out := sa.out || sb.out }
         ({ st' with sregs := setR st'.sregs r1 sa' }, resp st m sa'.obs)
     else if op == "isect" then
       let m := match intersection st.kind a b with
@@ -170,7 +206,9 @@ def binop (st : St) (op : String) (r1 r2 : Nat) (args : List String) : St × Res
         | .error e => showErr e
       let s := match specCompat sa sb with
         | some e => e
-        | none => "common=" ++ showNats (inter sa.keys sb.keys) ++ " union=" ++ toString (unionSize sa.keys sb.keys)
+        | none =>
+          if numCuts sa sb then "-" else
+          "common=" ++ showNats (inter sa.keys sb.keys) ++ " union=" ++ toString (unionSize sa.keys sb.keys)
       (st, resp st m s)
     else if op == "cc" then
       let d := args == ["1"]
@@ -217,6 +255,25 @@ def binop (st : St) (op : String) (r1 r2 : Nat) (args : List String) : St × Res
     else (st, { model := "bad-op" })
   | _, _, _, _ => (st, { model := "bad-reg" })
 
+/-- `sel` / `selx` / `fpsel` / `fpselx`: a signature holding the listed sketches selected at scaled `s`
+(`explicit`: retain test, then `downsample_scaled` of every retained sketch) -/
+def selOp (st : St) (ids : List Nat) (s : Nat) (explicit full : Bool) : St × Resp :=
+  let sks := ids.filterMap (getR st.regs)
+  let srs := ids.filterMap (getR st.sregs)
+  if sks.length != ids.length then (st, { model := "bad-reg" }) else
+  let res := if explicit then (sks.filter (keepScaled · s)).mapM (fun x => downsampleScaled st.kind x s)
+             else selectScaled st.kind sks s
+  let m := match res with
+    | .ok l => " | ".intercalate (("n=" ++ toString l.length) :: l.map (if full then Sk.obsp else Sk.obs))
+    | .error e => showErr e
+  let kept := srs.filter (fun r => r.scaled != 0 && r.scaled ≤ s)
+  let outs := kept.map (fun r => specDs r s)
+  let sp := match outs.find? (fun o => match o with | .error _ => true | .ok _ => false) with
+    | some (.error e) => e
+    | _ => " | ".intercalate (("n=" ++ toString kept.length) ::
+             outs.map (fun o => match o with | .ok r => (if full then r.obsp else r.obs) | .error e => e))
+  (st, resp st m sp)
+
 def stepC04 (st : St) (ws : List String) : St × Resp :=
   match ws with
   | "case" :: _ :: ty :: rest =>
@@ -246,7 +303,7 @@ def stepC04 (st : St) (ws : List String) : St × Resp :=
     | some a, some sa =>
       let ps := parsePairs items
       let a' := a.addManyAb st.kind ps
-      let sa' := { sa with src := sa.src ++ ps }
+      let sa' := SReg.mark st.kind { sa with src := sa.src ++ ps }
       ({ st with regs := setR st.regs r a', sregs := setR st.sregs r sa' }, resp st a'.obs sa'.obs)
     | _, _ => (st, { model := "bad-reg" })
   | ["set", r, h, a] =>
@@ -256,25 +313,68 @@ def stepC04 (st : St) (ws : List String) : St × Resp :=
     | some x, some sx =>
       let x' := x.setV h.toNat! a.toNat!
       let present := sx.keys.contains h.toNat!
-      let sx' := if present then { sx with src := sx.src.filter (fun p => p.1 != h.toNat!) ++ [(h.toNat!, a.toNat!)] }
+      let sx' := SReg.mark st.kind <| if present then { sx with src := sx.src.filter (fun p => p.1 != h.toNat!) ++ [(h.toNat!, a.toNat!)] }
                  else if a.toNat! == 0 then sx else { sx with src := sx.src ++ [(h.toNat!, a.toNat!)] }
       ({ st with regs := setR st.regs r x', sregs := setR st.sregs r sx' }, resp st x'.obs sx'.obs)
     | _, _ => (st, { model := "bad-reg" })
-  | "sel" :: s :: rs =>
-    let s := s.toNat!
+  | "sel" :: s :: rs => selOp st (rs.map String.toNat!) s.toNat! false false
+  | "selx" :: s :: rs => selOp st (rs.map String.toNat!) s.toNat! true false
+  | ["fpsel", s] => if st.sigRegs.isEmpty then (st, { model := "bad-reg" }) else selOp st st.sigRegs s.toNat! false true
+  | ["fpselx", s] => if st.sigRegs.isEmpty then (st, { model := "bad-reg" }) else selOp st st.sigRegs s.toNat! true true
+  | ["rm", r, hs] =>
+    let r := r.toNat!
+    match getR st.regs r, getR st.sregs r with
+    | some a, some sa =>
+      let hs := natList hs
+      let a' := a.removeMany hs
+      -- the register now stands for what it held, without the removed hashes
+      let sa' := { sa with src := sa.content.filter (fun p => !hs.contains p.1) }
+      ({ st with regs := setR st.regs r a', sregs := setR st.sregs r sa' }, resp st a'.obs sa'.obs)
+    | _, _ => (st, { model := "bad-reg" })
+  | ["clear", r] =>
+    let r := r.toNat!
+    match getR st.regs r, getR st.sregs r with
+    | some a, some sa =>
+      let a' := a.clear
+      let sa' := { sa with src := [], out := false }
+      ({ st with regs := setR st.regs r a', sregs := setR st.sregs r sa' }, resp st a'.obs sa'.obs)
+    | _, _ => (st, { model := "bad-reg" })
+  | ["md5", r] =>
+    match getR st.regs r.toNat! with
+    | some _ => (st, resp st "md5ok" "md5ok")
+    | none => (st, { model := "bad-reg" })
+  | "fpnew" :: mols :: ksizes :: scaled :: num :: track :: rs =>
+    -- `build_template`: per ksize protein, dayhoff, hp, dna; seed 42; num_hashes 500 unless given
+    let ms := mols.splitOn ","
+    let tr := track == "1"
+    let nm := if num == "d" then 500 else num.toNat!
+    let tmpl := (natList ksizes).flatMap (fun k =>
+      (["protein", "dayhoff", "hp", "dna"].filter ms.contains).map (fun m => (k, m)))
     let ids := rs.map String.toNat!
-    let sks := ids.filterMap (getR st.regs)
-    let srs := ids.filterMap (getR st.sregs)
-    if sks.length != ids.length then (st, { model := "bad-reg" }) else
-    let m := match selectScaled st.kind sks s with
-      | .ok l => " | ".intercalate (("n=" ++ toString l.length) :: l.map Sk.obs)
-      | .error e => showErr e
-    let kept := srs.filter (fun r => r.scaled != 0 && r.scaled ≤ s)
-    let outs := kept.map (fun r => specDs r s)
-    let sp := match outs.find? (fun o => match o with | .error _ => true | .ok _ => false) with
-      | some (.error e) => e
-      | _ => " | ".intercalate (("n=" ++ toString kept.length) :: outs.map (fun o => match o with | .ok r => r.obs | .error e => e))
-    (st, resp st m sp)
+    if tmpl.length != ids.length then (st, { model := "n=" ++ toString tmpl.length }) else
+    let sks := tmpl.map (fun (k, m) => Sk.new scaled.toNat! k (parseMol m) 42 tr nm)
+    let srs : List SReg := tmpl.map (fun (k, m) =>
+      { num := nm, maxHash := Scaled.maxHashForScaled scaled.toNat!, ksize := k, seed := 42, mol := m, track := tr, src := [] })
+    let regs := (ids.zip sks).foldl (fun l (i, v) => setR l i v) st.regs
+    let sregs := (ids.zip srs).foldl (fun l (i, v) => setR l i v) st.sregs
+    ({ st with regs := regs, sregs := sregs, sigRegs := ids },
+     resp st (" | ".intercalate (("n=" ++ toString sks.length) :: sks.map Sk.obsp))
+             (" | ".intercalate (("n=" ++ toString srs.length) :: srs.map SReg.obsp)))
+  | ["fpadd", _] =>
+    -- the hash multisets of the sequence were `add`ed to the mirror registers by the preceding lines
+    let sks := st.sigRegs.filterMap (getR st.regs)
+    let srs := st.sigRegs.filterMap (getR st.sregs)
+    if st.sigRegs.isEmpty then (st, { model := "bad-reg" }) else
+    (st, resp st (" | ".intercalate (("n=" ++ toString sks.length) :: sks.map Sk.obs))
+                 (" | ".intercalate (("n=" ++ toString srs.length) :: srs.map SReg.obs)))
+  | ["fpget", r, i] =>
+    match st.sigRegs[i.toNat!]? with
+    | some j =>
+      match getR st.regs j, getR st.sregs j with
+      | some a, some sa =>
+        ({ st with regs := setR st.regs r.toNat! a, sregs := setR st.sregs r.toNat! sa }, resp st a.obs sa.obs)
+      | _, _ => (st, { model := "bad-reg" })
+    | none => (st, { model := "bad-reg" })
   | [op, r1, r2, x] =>
     if op == "ds" || op == "dsm" then
       match getR st.regs r2.toNat!, getR st.sregs r2.toNat! with
@@ -294,4 +394,25 @@ def stepC04 (st : St) (ws : List String) : St × Resp :=
   | [op, r1, r2, x, y] => binop st op r1.toNat! r2.toNat! [x, y]
   | _ => (st, { model := "bad-op" })
 
-def main : IO Unit := Driver.run ({} : St) stepC04
+/-- the registers an op reads -/
+def operands (st : St) (ws : List String) : List Nat :=
+  match ws with
+  | "sel" :: _ :: rs => rs.filterMap String.toNat?
+  | "selx" :: _ :: rs => rs.filterMap String.toNat?
+  | "fpnew" :: _ => []
+  | "fpget" :: _ :: i :: _ => (i.toNat?.bind (st.sigRegs[·]?)).toList
+  | op :: rest =>
+    if op == "fpsel" || op == "fpselx" || op == "fpadd" then st.sigRegs
+    else if op == "copy" || op == "ds" || op == "dsm" then (rest.drop 1).take 1 |>.filterMap String.toNat?
+    else if ["obs", "scaled", "add", "set", "rm", "clear", "md5"].contains op then rest.take 1 |>.filterMap String.toNat?
+    else if op == "new" || op == "case" then []
+    else rest.take 2 |>.filterMap String.toNat?
+  | [] => []
+
+/-- the spec column is silent as soon as an operand is outside the property's parameter space -/
+def stepC04' (st : St) (ws : List String) : St × Resp :=
+  let (st', r) := stepC04 st ws
+  if (operands st' ws).any (fun i => (getR st'.sregs i).any (·.out)) then (st', { r with spec := "-" })
+  else (st', r)
+
+def main : IO Unit := Driver.run ({} : St) stepC04'
